@@ -91,6 +91,18 @@ type script struct {
 	ops    []string
 	obs    []string
 	start  string
+	// positions handed out by Board.Position() are values: what they said when obtained they must say for good
+	seen map[*board.Position]string
+}
+
+func (s *script) remember() {
+	if s.seen == nil {
+		s.seen = map[*board.Position]string{}
+	}
+	p := s.cur().Position()
+	if _, ok := s.seen[p]; !ok {
+		s.seen[p] = posTok(p)
+	}
 }
 
 func newScript(zt *board.ZobristTable, zseed int64, f string) *script {
@@ -114,7 +126,36 @@ func (s *script) push(m board.Move) bool {
 	}
 	s.ops = append(s.ops, "push:"+moveTok(m))
 	s.obs = append(s.obs, boardObs(s.zt, s.cur(), ok))
+	s.remember()
 	return ok
+}
+
+// replay: take the last move back and play it again - play must continue identically (C08)
+func (s *script) replay() {
+	b := s.cur()
+	m, ok := b.LastMove()
+	if !ok || s.depth[s.sel] <= s.floor[s.sel] {
+		return
+	}
+	// everything but the result field must be reproduced; the result too, unless the Draw it showed was only
+	// inherited from the parent (the flag is sticky along a line and cleared by a take-back) - it must come
+	// back whenever a draw condition holds in the position itself
+	obsNoResult := func(x *board.Board) string {
+		return fmt.Sprintf("%s %v %x %d %d %d %v %v", posTok(x.Position()), x.Turn(), uint64(x.Hash()), x.Ply(), x.NoProgress(), x.FullMoves(), x.HasCastled(board.White), x.HasCastled(board.Black))
+	}
+	before := obsNoResult(b)
+	wasDraw := b.Result().Outcome == board.Draw
+	holds := b.VerifRepetitions(b.Hash()) >= 3 || b.NoProgress() >= 100
+	s.pop()
+	s.push(m)
+	after := obsNoResult(s.cur())
+	if wasDraw && holds && s.cur().Result().Outcome != board.Draw {
+		after += " result=" + s.cur().Result().String()
+		before += " result=draw"
+	}
+	if after != before {
+		fmt.Printf("IMPLVIOL bscript %d %s :: %s :: taking the last move back and playing it again gives [%s], before it was [%s] prop=C08 key=replay-differs\n", s.zseed, s.start, strings.Join(s.ops, " "), after, before)
+	}
 }
 
 func (s *script) pop() {
@@ -150,7 +191,18 @@ func (s *script) adj() {
 }
 
 func (s *script) emit(c *caseCtx) {
+	s.checkSeen()
 	c.emit("bscript %d %s :: %s => %s", s.zseed, s.start, strings.Join(s.ops, " "), strings.Join(s.obs, " | "))
+}
+
+func (s *script) checkSeen() {
+	n := 0
+	for p, tok := range s.seen {
+		if now := posTok(p); now != tok && n < 2 {
+			n++
+			fmt.Printf("IMPLVIOL bscript %d %s :: %s :: a position obtained from Board.Position() changed afterwards: it read %s when obtained and reads %s at the end of the script prop=C02 key=position-mutated\n", s.zseed, s.start, strings.Join(s.ops, " "), tok, now)
+		}
+	}
 }
 
 // playStr plays a move given in coordinate notation, matching it against the pseudo-legal moves the
@@ -205,7 +257,9 @@ func randomScript(c *caseCtx, zt *board.ZobristTable, zseed int64, f string, nop
 			} else {
 				s.push(pickMove(c, moves))
 			}
-		case r < 92:
+		case r < 88:
+			s.replay()
+		case r < 93:
 			if len(s.boards) < 4 {
 				s.fork()
 			}
@@ -233,6 +287,21 @@ func drawScripts(c *caseCtx, zt *board.ZobristTable, zseed int64) {
 	s := newScript(zt, zseed, fen.Initial)
 	s.playAll("g1f3 g8f6 f3g1 f6g8 g1f3 g8f6 f3g1 f6g8 g1f3 g8f6 f3g1 f6g8 g1f3 g8f6 f3g1 f6g8 g1f3 g8f6")
 	s.emit(c)
+	// the fourth and the sixth occurrence reached again after a take-back (the sticky flag is gone then)
+	for _, plies := range []int{12, 13, 16, 20, 24} {
+		s = newScript(zt, zseed, fen.Initial)
+		cyc := strings.Fields("g1f3 g8f6 f3g1 f6g8")
+		for k := 0; k < plies; k++ {
+			s.playStr(cyc[k%4])
+		}
+		s.replay()
+		s.pop()
+		s.pop()
+		s.playStr(cyc[(plies-2)%4])
+		s.playStr(cyc[(plies-1)%4])
+		s.replay()
+		s.emit(c)
+	}
 	// repetition right after a capture
 	s = newScript(zt, zseed, fen.Initial)
 	s.playAll("e2e4 d7d5 e4d5 g8f6 g1f3 f6g8 f3g1 g8f6 g1f3 f6g8 f3g1 g8f6 g1f3")
@@ -249,7 +318,7 @@ func drawScripts(c *caseCtx, zt *board.ZobristTable, zseed int64) {
 	s.playAll("e1c1 e8e7 d1d2 e7e8")
 	s.emit(c)
 	// fifty-move rule counting on from the clock given at set-up
-	for _, clock := range []int{0, 90, 95, 98, 99, 100} {
+	for _, clock := range []int{0, 90, 95, 98, 99, 100, 101, 150, 254, 255, 256, 260, 300, 354, 511, 1000, 65535, 65536} {
 		s = newScript(zt, zseed, fmt.Sprintf("4k3/8/8/8/8/8/8/R3K3 w - - %d 80", clock))
 		s.playAll("a1a2 e8d8 a2a3 d8c8 a3b3 c8d8 b3c3 d8e8 c3c4 e8f8 c4c5 f8g8")
 		s.emit(c)
